@@ -399,6 +399,7 @@ struct Exec {
         case OP_ATTACH: rc = lib([&] { return ncmpi_buffer_attach(me.ncid[op.file], op.a[0]); }); rc_check(op, opi, rc, exp_rc(op), op.rc_any); break;
         case OP_DETACH: rc = lib([&] { return ncmpi_buffer_detach(me.ncid[op.file]); }); rc_check(op, opi, rc, exp_rc(op), op.rc_any); break;
         case OP_INQ: do_inq(op, opi); break;
+        case OP_OPENPROBE: do_openprobe(op, opi); break;
         case OP_PROBE: {
             int ncid = me.ncid[op.file]; int dummy = 0, v = 0, req = NC_REQ_NULL, stt = 0; MPI_Offset st[16] = {0}, ct[16]; for (auto &x : ct) x = 1; double val = 0;
             rc = lib([&] {
@@ -478,6 +479,44 @@ struct Exec {
             int n = -1; if (ncmpi_inq_nreqs(ncid, &n) == NC_NOERR && n != op.exp_nreqs[r]) fail("nreqs", opi, "ncmpi_inq_nreqs reports " + std::to_string(n) + " pending requests, model has " + std::to_string(op.exp_nreqs[r]));
             if (c.o.check_usage && op.exp_usage[r] >= 0) { MPI_Offset u = -1; if (ncmpi_inq_buffer_usage(ncid, &u) == NC_NOERR && u != op.exp_usage[r]) fail("abuf-usage", opi, "ncmpi_inq_buffer_usage reports " + std::to_string((long long)u) + " bytes, pending buffered puts hold " + std::to_string(op.exp_usage[r]) + ((r < (int)op.exp_usage_tail.size() && u == op.exp_usage_tail[r]) ? " (tail-only-reclaim: the excess is exactly the space of completed/cancelled entries allocated before a still pending one)" : "")); }
         }
+    }
+    // open an arbitrary byte image; if the library accepts it, its metadata must be self-consistent and bounded reads must terminate (C19)
+    void do_openprobe(Op &op, int opi) {
+        int ncid = -1;
+        sim::set_in_lib(true);
+        int rc = ncmpi_open(MPI_COMM_WORLD, op.name.c_str(), NC_NOWRITE, MPI_INFO_NULL, &ncid);
+        sim::set_in_lib(false);
+        c.res->rcs[r][opi].rc = rc; c.res->rcs[r][opi].executed = true;
+        if (rc != NC_NOERR && rc != NC_ENULLPAD) {
+            const char *s = ncmpi_strerrno(rc);
+            if (rc > 0 || !s || !strncmp(s, "Unknown", 7)) fail("open-garbage-rc", opi, "ncmpi_open of a malformed file returned " + std::to_string(rc) + ", which is not a netCDF error code");
+            return;
+        }
+        auto bad = [&](const std::string &d) { sim::set_in_lib(false); fail("inconsistent-metadata", opi, "ncmpi_open accepted the file but " + d); };
+        sim::set_in_lib(true);
+        int nd = -1, nv = -1, ng = -1, ul = -2;
+        if (ncmpi_inq(ncid, &nd, &nv, &ng, &ul) != NC_NOERR || nd < 0 || nv < 0 || ng < 0 || ul < -1 || ul >= std::max(nd, 1)) bad("ncmpi_inq fails or reports ndims=" + std::to_string(nd) + " nvars=" + std::to_string(nv) + " ngatts=" + std::to_string(ng) + " unlimdim=" + std::to_string(ul));
+        if (nd > 100000 || nv > 100000 || ng > 100000) { sim::set_in_lib(false); ncmpi_close(ncid); return; }
+        std::vector<MPI_Offset> dimlen(nd);
+        for (int i = 0; i < nd; i++) { char nm[NC_MAX_NAME + 1]; if (ncmpi_inq_dim(ncid, i, nm, &dimlen[i]) != NC_NOERR || dimlen[i] < 0) bad("ncmpi_inq_dim(" + std::to_string(i) + ") fails or reports a negative length"); int id = -1; if (ncmpi_inq_dimid(ncid, nm, &id) != NC_NOERR) bad("dimension " + std::to_string(i) + " cannot be found by its own name"); }
+        for (int i = 0; i < ng; i++) { char nm[NC_MAX_NAME + 1]; nc_type t; MPI_Offset len; if (ncmpi_inq_attname(ncid, NC_GLOBAL, i, nm) != NC_NOERR || ncmpi_inq_att(ncid, NC_GLOBAL, nm, &t, &len) != NC_NOERR || len < 0) bad("global attribute " + std::to_string(i) + " cannot be inquired");
+            if (len <= 4096) { std::vector<double> b((size_t)len + 1); if (t == NC_CHAR) ncmpi_get_att_text(ncid, NC_GLOBAL, nm, (char *)b.data()); else ncmpi_get_att_double(ncid, NC_GLOBAL, nm, b.data()); } }
+        for (int i = 0; i < nv; i++) {
+            char nm[NC_MAX_NAME + 1]; nc_type t; int vnd = -1, na = -1;
+            if (ncmpi_inq_varndims(ncid, i, &vnd) != NC_NOERR || vnd < 0 || vnd > 1024) bad("variable " + std::to_string(i) + " has an unusable rank");
+            std::vector<int> dimids(vnd + 1);
+            if (ncmpi_inq_var(ncid, i, nm, &t, &vnd, dimids.data(), &na) != NC_NOERR || t < NC_BYTE || t > NC_UINT64 || na < 0) bad("variable " + std::to_string(i) + " cannot be inquired or has an invalid type");
+            for (int d = 0; d < vnd; d++) if (dimids[d] < 0 || dimids[d] >= nd) bad("variable '" + std::string(nm) + "' refers to dimension id " + std::to_string(dimids[d]) + " but the file has " + std::to_string(nd) + " dimensions");
+            MPI_Offset off = -1; if (ncmpi_inq_varoffset(ncid, i, &off) != NC_NOERR || off < 0) bad("variable '" + std::string(nm) + "' has a negative offset");
+            // bounded read: the first element(s) of the variable, collectively
+            std::vector<MPI_Offset> st(std::max(vnd, 1), 0), ct(std::max(vnd, 1), 1); bool empty = false;
+            for (int d = 0; d < vnd; d++) { MPI_Offset len = dimlen[dimids[d]]; if (dimids[d] == ul) ncmpi_inq_dimlen(ncid, ul, &len); if (len <= 0) empty = true; ct[d] = (d == vnd - 1) ? std::min<MPI_Offset>(len, 4) : 1; }
+            if (empty) for (auto &x : ct) x = 0;
+            std::vector<double> buf(8, 0);
+            if (t == NC_CHAR) ncmpi_get_vara_text_all(ncid, i, st.data(), ct.data(), (char *)buf.data()); else ncmpi_get_vara_double_all(ncid, i, st.data(), ct.data(), buf.data());
+        }
+        ncmpi_close(ncid);
+        sim::set_in_lib(false);
     }
     void drop_reqs(int file) { for (auto &q : me.reqs[file]) { if (q.ub) free_buf(*q.ub); q = PendingReq(); } }
     void do_post(Op &op, int opi);
@@ -620,6 +659,7 @@ RunResult run_program(Program &p, const RunOpts &o) {
     RunResult res;
     Model m; annotate(m, p);
     sim::Sim s; s.seed = p.seed; s.cfg = p.cfg.sim; s.faults = p.faults; s.record_iocalls = o.record_iocalls; s.trace = o.trace || getenv("VERIF_TRACE");
+    for (auto &f : p.preload) s.fs.put_file(f.first, f.second);
     int n = p.cfg.sim.nprocs; int nslots = (int)m.files.size();
     Ctx c; c.p = &p; c.o = o; c.res = &res; c.n = n; c.rs.resize(n);
     for (auto &r : c.rs) { r.ncid.assign(nslots, -1); r.reqs.resize(nslots); }
